@@ -160,6 +160,40 @@ def late_born_cells(ctx, rng):
     ctx.count("late_born_cells", 18)
 
 
+def coarse_tick_growth(ctx, rng):
+    """volume ticks (dt = 1) coarser than the requested grid (spacing 0.125) and a slow network (less than one event per
+    grid point): the run still ends at the first grid time at which the volume model reports division, with every requested
+    time up to it reported, and the reported volume stays within one tick of the growth law."""
+    spec = {"species": ["A", "B"], "reactions": [{"reactants": ["A"], "products": ["B"], "prop": {"type": "massaction", "k": "k0"}},
+                                                  {"reactants": ["B"], "products": ["A"], "prop": {"type": "massaction", "k": "k1"}}],
+            "params": {"k0": 0.05, "k1": 0.05}, "ic": {"A": 3, "B": 2}}
+    args = {"cycle": 20.0, "avg": 1.8, "noise": 0.0}
+    g = LN2 / args["cycle"]
+    divT = math.log(args["avg"] / 1.0) / g          # 16.96: reported at tick 17
+    T = np.arange(0, 161) * 0.125
+    for j in range(4):
+        seed = rng.randint(1, 2**31)
+        case = {"scenario": "coarse ticks, slow network, growing volume", "spec": spec, "seed": seed, "args": args, "tick": 1.0, "grid_step": 0.125}
+        ctx.begin_case(case)
+        M = build_model(spec)
+        x0 = np.array(M.get_species_array(), dtype=float)
+        r = simcorr.run_real(M, "volume", T, seed, 1.0, vol0=1.0, volume_factory=lambda M_: make_volume("stt", M_, args, 1.0, x0))
+        ctx.evaluated()
+        times, vol = r["times"], r["volume"]
+        ok_end = bool(r["divided"]) and len(times) > 0 and float(times[-1]) == 17.0 and len(times) == len(r["rows"]) == len(vol) \
+            and np.array_equal(times, T[:len(times)])
+        lo = np.exp(g * (times - 1.0)) * (1 - 1e-9)
+        hi = np.exp(g * times) * (1 + 1e-9)
+        ok_vol = len(times) > 0 and not (np.any(vol < np.minimum(lo, 1.0) * (1 - 1e-9)) or np.any(vol > hi))
+        if not (ok_end and ok_vol):
+            bad = int(np.argmax((vol > hi) | (vol < np.minimum(lo, 1.0) * (1 - 1e-9)))) if len(times) else 0
+            ctx.violation("volume/coarse-ticks", "ticks of 1.0 on a grid of 0.125 (division time %.3f): divided=%s, result ends at t=%s with %d rows (expected t=17 with 137 rows); "
+                          "volume %s at t=%s against the law's band [%s, %s]" % (divT, r["divided"], times[-1] if len(times) else None, len(times),
+                          vol[bad] if len(times) else None, times[bad] if len(times) else None, lo[bad] if len(times) else None, hi[bad] if len(times) else None), case)
+            return
+        ctx.count("coarse_tick_growth_runs")
+
+
 def scaled_cme(ctx, spec, V, nruns, seed0):
     """constant volume: distribution = master equation with volume-scaled propensities (G-test support)."""
     from bioscrape.simulator import ModelCSimInterface, VolumeSSASimulator
@@ -273,6 +307,7 @@ def run(ctx):
                     "growth": rng.choice(["0.1", "0.05 + 0.01*A", "0.3*B/(1+B)", "k0/10", "0.02 + 0.01*t"])}
             corr(ctx, spec, rng.choice([0.0, 0.0, 5 * dt]) + T, seeds, "statedep", args, vol0, safe, sim="delayvolume" if (i // 4) % 2 else "volume")
     late_born_cells(ctx, rng)
+    coarse_tick_growth(ctx, rng)
     nruns = 2500 if ctx.quick() else 150000
     for k, V in enumerate([0.25, 2.0, 4.5]):
         scaled_cme(ctx, FINITE[k % 3 if k < 3 else 0], V, nruns, 7000 * ctx.seed + 11 * k)
